@@ -279,6 +279,14 @@ fn stub_vec_push<T, A: std::alloc::Allocator>(v: &mut Vec<T, A>, value: T) {
     }
 }
 
+/// model of Vec::reserve inside `filter(..).collect()`: `collect` allocates room for four elements before it stores the first
+/// and calls `reserve` only when the vector is full; with at most three legal moves that never happens, and the model
+/// asserts it (Kani's symbolic execution of the real growth path -- finish_grow / realloc / memcpy, once per unrolled
+/// iteration -- is what exhausted 12 GB here)
+fn stub_vec_reserve<T, A: std::alloc::Allocator>(v: &mut Vec<T, A>, additional: usize) {
+    assert!(v.capacity() - v.len() >= additional, "collect() never has to grow its vector for <= 3 matches");
+}
+
 static mut APPLIED: [u32; 8] = [0; 8]; // [number of by_performing_move calls, raw move of the last call, ..]
 
 /// contract of State::by_performing_move used at the call site of by_performing_moves (the contract itself is what the
@@ -309,6 +317,7 @@ fn stub_by_performing_move(state: &State, mv: &Move) -> Result<State, MovePerfor
 #[kani::stub(crate::movegen::MoveGenerator::compute_legal_moves, stub_compute_legal_moves)]
 #[kani::stub(crate::state::State::by_performing_move, stub_by_performing_move)]
 #[kani::stub(std::vec::Vec::push, stub_vec_push)]
+#[kani::stub(std::vec::Vec::reserve, stub_vec_reserve)]
 fn c02_select_by_coordinates() {
     unsafe {
         LEGAL = kani::any();
